@@ -363,7 +363,11 @@ class Gen:
             # under errexit, bash checks the status `eval` returns even while a `break`/`continue` issued inside it is
             # pending (`eval '! continue'` → 1 → exit); brush checks only results with normal flow. Rare and arguably
             # either way: with option toggles in play no loop jump crosses an `eval` boundary in generated programs.
-            return ("Ev", self.lst(depth - 1, 0 if "opts" in self.feats else loops, infunc, ncalls))
+            # Nor does a `return`: bash's eval switches errexit off while it runs in an exempt context and restores it
+            # when it ends — a `return` that jumps out of `if eval 'set -e; return 1'` skips the restore, and the shell goes
+            # on with `-e` shown in `$-` but not acted on (seen once in ~8000 thorough-tier programs).
+            opts = "opts" in self.feats
+            return ("Ev", self.lst(depth - 1, 0 if opts else loops, infunc and not opts, ncalls))
         return self.simple(loops, infunc, ncalls)
 
     def cmd_of(self, kinds, depth, loops, infunc, ncalls):
